@@ -460,10 +460,13 @@ def rearm_rule(rep, A):
     clause('re-arm-only-if-still-planned', ['shift', 'is_planned', 'unplan', 'plan'], only_if_planned,
            'unplan/shift/plan must run only on the branch on which the callback left the timer planned '
            '(a timer unplanned by its callback must not come back)')
-    clause('re-arm-order-unplan-shift-plan', ['shift', 'unplan', 'plan'],
-           lambda: f.dominates(unplan, shift) and f.dominates(shift, plan),
-           'the re-arm sequence must be unplan(); shift(); plan(): the deadline is advanced by exactly one interval while '
-           'the timer is out of the sorted list, then the timer is re-inserted with the new deadline')
+    # the deadline is advanced after the callback has run (a callback that re-plans its timer must not be shifted on top,
+    # seed C16-exec-shift-before-callback) and before the timer is re-inserted; plan() re-inserts a timer that was taken
+    # out first.  The relative order of shift() and unplan() is immaterial: no user code runs between them.
+    clause('re-arm-order-callback-then-shift-and-unplan-then-plan', ['shift', 'unplan', 'plan'],
+           lambda: f.dominates(cb, shift) and f.dominates(shift, plan) and f.dominates(unplan, plan),
+           'the re-arm sequence must be: callback, then shift() and unplan() (in either order), then plan(): the deadline '
+           'is advanced by exactly one interval after the callback ran and the timer is re-inserted with the new deadline')
     others = [i for i in f.calls() if callee_base(mod, i) in ('set_start', 'set_interval')]
     stores = [i for i in f.all_insts() if i.op == 'store']
     ok = not others and not stores
